@@ -357,6 +357,18 @@ class Path:
         self.log.append(r)
         return r
 
+    def assume_fact(self, cond):
+        """A fact that holds for every input (e.g. an inductively established range of a callee): known to
+        the path's solver and to its obligations, but not part of the path condition."""
+        cond = z3.simplify(cond)
+        if z3.is_true(cond):
+            return
+        self.solver.add(cond)
+        self.insts.append(cond)
+        for inst in self.unfolder.add([cond]):
+            self.insts.append(inst)
+            self.solver.add(inst)
+
     def feasible(self, cond=None):
         if cond is not None:
             c = z3.simplify(cond)
@@ -436,6 +448,7 @@ class Engine:
         self._work = []
         self.ufs = {}
         self.drop_calls = {"log.debug"}
+        self.havoc_unknown_loops = False
         self.len_split = 3
 
     # ---- uninterpreted helpers ----------------------------------------------------------
@@ -1105,6 +1118,23 @@ class Engine:
                 self.throw(path, "IndexError", "list assignment index out of range")
             o.content[k] = v
             return
+        if isinstance(o, Sym) and self.tag_of(path, o) == "ListV":
+            o = ListObj(self.PV.items(o.term), fresh=False)
+        if isinstance(o, ListObj) and isinstance(k, (int, SInt)):
+            # element store into a list of symbolic length: the list afterwards is some list of the same length
+            self.own_check(path, o, "setitem")
+            seq = self.seq_term(o)
+            L = z3.Length(seq)
+            ke = k.e if isinstance(k, SInt) else z3.IntVal(k)
+            if not self.branch(path, z3.And(ke >= -L, ke < L)):
+                self.throw(path, "IndexError", "list assignment index out of range")
+            idx = z3.If(ke >= 0, ke, L + ke)
+            new = self.U.fresh("stored", self.U.Seq)
+            j = z3.FreshConst(z3.IntSort(), "j")
+            path.assume_fact(z3.And(z3.Length(new) == L, new[idx] == self.to_pv(v)))
+            o.content = new
+            o.store_note = (seq, idx)
+            return
         raise Unsupported(f"setitem on {type(o).__name__}")
 
     def concrete_key(self, path, k):
@@ -1178,11 +1208,18 @@ class Engine:
         it = self.eval(path, frame, s.iter)
         items = self.iter_concrete(path, it)
         if items is None:
+            from .speclib import SeqLoopInvariant, InvariantMismatch
             inv = self.loop_invariants.get((frame.fref.qualname, frame.loop_ordinal(s)))
-            if inv is None:
-                items = self.split_length(path, it)
-            else:
-                return inv.run(self, path, frame, s, it)
+            if inv is not None:
+                try:
+                    return inv.run(self, path, frame, s, it)
+                except InvariantMismatch as m:
+                    path.notes.append(("invariant-mismatch", str(m)))
+            if inv is not None or isinstance(it, EnumIter) or self.havoc_unknown_loops:
+                # no usable invariant for this loop: the trivial invariant still checks the safety and ownership
+                # obligations of an arbitrary iteration; everything the loop modifies is unknown afterwards
+                return SeqLoopInvariant(lambda *a: z3.BoolVal(True)).run(self, path, frame, s, it)
+            items = self.split_length(path, it)
         for x in items:
             self.assign(path, frame, s.target, x)
             try:
@@ -1241,7 +1278,7 @@ class Engine:
             raise Unsupported(f"iteration over {tag}")
         if isinstance(v, GenVal):
             return v.items
-        if isinstance(v, SeqMap):
+        if isinstance(v, (SeqMap, EnumIter)):
             return None
         if v is None or isinstance(v, (int, bool)):
             self.throw(path, "TypeError", "object is not iterable")
@@ -1335,10 +1372,18 @@ class Engine:
             if isinstance(v, pyast.Constant):
                 parts.append(v.value)
             elif isinstance(v, pyast.FormattedValue):
-                if v.format_spec is not None or v.conversion not in (-1, 115):
-                    raise Unsupported("f-string conversion/format spec")
+                if v.format_spec is not None:
+                    raise Unsupported("f-string format spec")
                 x = self.eval(path, frame, v.value)
-                parts.extend(self.str_parts(path, self.to_str(path, x)))
+                if v.conversion in (114, 97):       # !r / !a : repr() of the value, an opaque string
+                    try:
+                        pv = self.to_pv(x)
+                    except Unsupported:
+                        pv = self.U.fresh("reprarg")
+                    t = self.uf("py_repr", self.PV, z3.StringSort())(pv)
+                    parts.append(Atom(t, ("py_repr", pv)))
+                else:
+                    parts.extend(self.str_parts(path, self.to_str(path, x)))
             else:
                 raise Unsupported("f-string part")
         return mk_str(parts)
@@ -1632,7 +1677,26 @@ class Engine:
             return isinstance(l, ClassRef) and isinstance(r, ClassRef) and l.qualname == r.qualname
         if isinstance(l, bool) or isinstance(r, bool):
             return self.py_eq(path, l, r)
-        raise Unsupported(f"`is` on {type(l).__name__}, {type(r).__name__}")
+        if isinstance(l, (Sym, ListObj, tuple)) and isinstance(r, (Sym, ListObj, tuple)):
+            # object identity is not part of the value model: syntactically the same value => identical; otherwise
+            # an unknown boolean that implies equality (sound over-approximation of `is`)
+            if isinstance(l, ListObj) and isinstance(r, ListObj):
+                if l is r:
+                    return True
+                if l.fresh != r.fresh or (l.fresh and r.fresh):
+                    return False
+            try:
+                a, b = self.to_pv(l), self.to_pv(r)
+            except Unsupported:
+                raise Unsupported(f"`is` on {type(l).__name__}, {type(r).__name__}")
+            if z3.simplify(a).eq(z3.simplify(b)) and not isinstance(l, ListObj):
+                return True
+            ident = z3.FreshConst(z3.BoolSort(), "is")
+            path.assume_fact(z3.Implies(ident, a == b))
+            return SBool(ident)
+        if isinstance(l, (str, SStr, int, SInt)) or isinstance(r, (str, SStr, int, SInt)):
+            raise Unsupported("`is` on str/int values")
+        return l is r
 
     def py_in(self, path, x, c):
         if isinstance(c, GhostMap):
@@ -2011,6 +2075,14 @@ class SymTuple:
     def __init__(self, seq, star=None):
         self.seq = seq
         self.star = star
+
+
+class EnumIter:
+    """enumerate(<symbolic-length sequence>, start)"""
+
+    def __init__(self, inner, start=0):
+        self.inner = inner
+        self.start = start
 
 
 class GenVal:
